@@ -96,7 +96,7 @@ Value& MemberPUTExpression::value(Context& ctx) const
         }
         else if (a1.type() == Type::NO_TYPE)
         {
-          rv->at(p).deref_value().swap(Value(Value::type_integer));
+          rv->at(p).deref_value().swap(Value(rv_type.levelDown()));
           return val;
         }
         break;
@@ -108,7 +108,7 @@ Value& MemberPUTExpression::value(Context& ctx) const
         }
         else if (a1.type() == Type::NO_TYPE)
         {
-          rv->at(p).deref_value().swap(Value(Value::type_numeric));
+          rv->at(p).deref_value().swap(Value(rv_type.levelDown()));
           return val;
         }
         break;
